@@ -473,4 +473,22 @@ def hexPairs : Nat → List Byte → Option (List Byte)
 def hexToUint (w k : Nat) (hex : List Byte) : Option (BitVec w) :=
   (hexPairs k hex).map fun bs => BitVec.ofNat w (ofBytesLE bs.reverse)
 
+
+/-! ### the rest of dprint_func_impl.c that carries numbers: the `debug_asmlink_*` self-test
+    routines (hex renderers with a `':'` after every argument), `dprptr` / `dprptrln`, and
+    `debug_print(NULL)` -/
+def asmlinkArgs8 (vs : List (BitVec 8)) : List Byte := vs.flatMap fun a => printhexU8 a ++ [0x3A#8]
+def asmlinkArgs16 (vs : List (BitVec 16)) : List Byte := vs.flatMap fun a => printhexU16 a ++ [0x3A#8]
+def asmlinkArgs32 (vs : List (BitVec 32)) : List Byte := vs.flatMap fun a => printhexU32 a ++ [0x3A#8]
+def asmlinkRet8 : BitVec 8 := 0xFE#8
+def asmlinkRet16 : BitVec 16 := 0xFEDC#16
+def asmlinkRet32 : BitVec 32 := 0xFEDCBA98#32
+def asmlinkRet64 : BitVec 64 := 0xFEDCBA9876543210#64
+/-- `debug_asmlink_test`: A B C D E 1 2 3 4 5 -/
+def asmlinkTest : List Byte := [0x41#8, 0x42#8, 0x43#8, 0x44#8, 0x45#8, 0x31#8, 0x32#8, 0x33#8, 0x34#8, 0x35#8]
+def dprptr (v : BitVec 64) : Option (List Byte) := printhexPtr v
+def dprptrln (v : BitVec 64) : Option (List Byte) := (printhexPtr v).map (· ++ [0x0D#8, 0x0A#8])
+/-- `debug_print((const char *)0)` -/
+def debugPrintNull : List Byte := [0x4E#8, 0x55#8, 0x4C#8, 0x4C#8]
+
 end Igris.C07
